@@ -663,6 +663,16 @@ pub fn check_state(p: &Props, ops: &[Op], info: &PlanInfo, obs: &Obs, last_only:
                 }
             }
         }
+        if let (Some(su), Some(di)) = (&obs.setups_via_run_now, &obs.disposes_via_run_now) {
+            for n in &info.nodes {
+                if n.kind != Kind::Batch && !n.is_static && su[n.id] != 1 {
+                    out.push(v("C13", "setup-count-via-run-now", format!("system {} (depth {}) was set up {} times when the dispatcher was set up through its RunNow implementation", n.id, n.depth, su[n.id])));
+                }
+                if n.kind != Kind::Batch && di[n.id] != 1 {
+                    out.push(v("C13", "dispose-count-via-run-now", format!("system {} (depth {}) was disposed {} times when the dispatcher was disposed through its RunNow implementation", n.id, n.depth, di[n.id])));
+                }
+            }
+        }
     }
     out
 }
